@@ -273,8 +273,6 @@ theorem isolated_cons (cfg : Cfg) (e : Ev) (s : List Ev) (g : G) (h : Isolated c
 /-- a synchronisation step (neither local nor `spawn`) inside `run_proj` -/
 theorem run_proj_sync (cfg : Cfg) (u : Tid) (e : Ev) (s : List Ev) (g : G)
     (h1 : ∀ t op, e ≠ .loc t op) (h2 : ∀ t v, e ≠ .spawn t v)
-    (P : G → List (Ev × Out) → Prop)
-    (hP : ∀ g' tr', P g' tr' ↔ P g' tr')
     (ih : (run cfg s (step cfg g e).1).1.thr u = (soloSpec cfg u (proj u (run cfg s (step cfg g e).1).2) ((step cfg g e).1.thr u)).1 ∧
           localOuts u (run cfg s (step cfg g e).1).2 = (soloSpec cfg u (proj u (run cfg s (step cfg g e).1).2) ((step cfg g e).1.thr u)).2 ∧
           CacheOK cfg (run cfg s (step cfg g e).1).1.cache) :
@@ -302,7 +300,7 @@ theorem run_proj (cfg : Cfg) (u : Tid) (s : List Ev) : ∀ g : G, CacheOK cfg g.
     obtain ⟨hie, hiso'⟩ := isolated_cons cfg e s g hiso
     rw [run_cons]
     have sync : (∀ t op, e ≠ .loc t op) → (∀ t v, e ≠ .spawn t v) → _ := fun h1 h2 =>
-      run_proj_sync cfg u e s g h1 h2 (fun _ _ => True) (fun _ _ => Iff.rfl)
+      run_proj_sync cfg u e s g h1 h2
         (ih (step cfg g e).1 (by rw [(step_sync_frame cfg g e h1 h2).2]; exact hc) hiso')
     cases e with
     | loc t op =>
